@@ -99,6 +99,16 @@ func (c *Ctx) fieldStores(fn *ssa.Function, suffix string, depth int) []StoreEve
 					ev.Root = liftValue(ce.Root, callee, &x.Call)
 					ev.Val = liftValue(ce.Val, callee, &x.Call)
 					if ce.Root != nil && ev.Root == nil {
+						// an object the callee reaches through one of its parameters
+						// (`w.sc` in a method of w): the write stays visible to the caller,
+						// attributed to the argument it was reached from
+						if pp, okp := c.PathOf(ce.Root); okp {
+							if base := liftValue(Resolve(pp.Root), callee, &x.Call); base != nil {
+								ev.Root = base
+							}
+						}
+					}
+					if ce.Root != nil && ev.Root == nil {
 						// root is not a parameter of the callee: a write to some
 						// other object, irrelevant for the caller's objects
 						if _, isGlobal := ce.Root.(*ssa.Global); !isGlobal {
